@@ -472,6 +472,110 @@ func r19Visitor(c *RuleCtx) {
 	// after a stop request nothing more is decoded for the visitor: the function returns nil
 }
 
+// docnumGuard looks for a comparison of prm with SegmentBase.numDocs that
+// dominates block b and classifies it by its truth table.
+func docnumGuard(b *ssa.BasicBlock, prm *ssa.Parameter) (ok, found bool, desc string) {
+	desc = "no comparison of the document number with the segment's document count dominates the access"
+	for ; b != nil; b = b.Idom() {
+		pb := b.Idom()
+		if pb == nil {
+			break
+		}
+		iff, isIf := pb.Instrs[len(pb.Instrs)-1].(*ssa.If)
+		if !isIf {
+			continue
+		}
+		bo, isBO := iff.Cond.(*ssa.BinOp)
+		if !isBO {
+			continue
+		}
+		var op token.Token
+		switch {
+		case root(bo.X) == ssa.Value(prm) && isLoadOfField(bo.Y, "SegmentBase", "numDocs"):
+			op = bo.Op
+		case root(bo.Y) == ssa.Value(prm) && isLoadOfField(bo.X, "SegmentBase", "numDocs"):
+			switch bo.Op {
+			case token.LSS:
+				op = token.GTR
+			case token.LEQ:
+				op = token.GEQ
+			case token.GTR:
+				op = token.LSS
+			case token.GEQ:
+				op = token.LEQ
+			default:
+				op = bo.Op
+			}
+		default:
+			continue
+		}
+		var towardsTrue bool
+		switch {
+		case pb.Succs[0] == b && len(b.Preds) == 1:
+			towardsTrue = true
+		case pb.Succs[1] == b && len(b.Preds) == 1:
+			towardsTrue = false
+		default:
+			continue
+		}
+		// orderings of (num, numDocs): num<numDocs, ==, >
+		lt, _ := cmpInt(op, 0, 1)
+		eq, _ := cmpInt(op, 1, 1)
+		gt, _ := cmpInt(op, 2, 1)
+		rl, re, rg := lt == towardsTrue, eq == towardsTrue, gt == towardsTrue
+		desc = fmt.Sprintf("guard `num %s numDocs`: read when num<numDocs:%v num==numDocs:%v num>numDocs:%v", op, rl, re, rg)
+		return rl && !re && !rg, true, desc
+	}
+	return false, false, desc
+}
+
+// docnumGuarded: the access at cs (document number = prm) is guarded in its
+// own function, or — when the function is an unexported helper that does not
+// compare at all — at every one of its call sites.
+func docnumGuarded(p *Program, cs ssa.CallInstruction, prm *ssa.Parameter, depth int) (bool, string, int) {
+	ok, found, desc := docnumGuard(cs.Block(), prm)
+	if found {
+		return ok, desc, 1
+	}
+	fn := cs.Parent()
+	if depth >= 2 || fn.Parent() != nil || fn.Object() == nil || fn.Object().Exported() {
+		return false, desc, 1
+	}
+	idx := -1
+	for i, q := range fn.Params {
+		if q == prm {
+			idx = i
+		}
+	}
+	var sites []ssa.CallInstruction
+	for _, s := range p.callersOf(fn) {
+		if par := s.Parent(); par.Synthetic != "" && len(p.callersOf(par)) == 0 {
+			continue
+		}
+		sites = append(sites, s)
+	}
+	if idx < 0 || len(sites) == 0 {
+		return false, desc, 1
+	}
+	n := 0
+	for _, s := range sites {
+		args := s.Common().Args
+		if s.Common().IsInvoke() || idx >= len(args) {
+			return false, desc, 1
+		}
+		prm2, isP := root(args[idx]).(*ssa.Parameter)
+		if !isP {
+			return false, "the helper " + funcShortName(fn) + " is handed a document number that is not a parameter of its caller at " + p.instrPos(s), 1
+		}
+		ok2, d2, k := docnumGuarded(p, s, prm2, depth+1)
+		if !ok2 {
+			return false, "in caller " + funcShortName(s.Parent()) + ": " + d2, 1
+		}
+		n += k
+	}
+	return true, "guarded at every call site of " + funcShortName(fn), n
+}
+
 func r19DocNum(c *RuleCtx) {
 	p := c.p
 	// functions that index the stored-offset table by a document number
@@ -492,63 +596,8 @@ func r19DocNum(c *RuleCtx) {
 			if !ok {
 				continue
 			}
-			n++
-			// a dominating guard comparing that parameter with numDocs
-			okc := false
-			desc := "no comparison of the document number with the segment's document count dominates the access"
-			for b := cs.Block(); b != nil; b = b.Idom() {
-				pb := b.Idom()
-				if pb == nil {
-					break
-				}
-				iff, ok := pb.Instrs[len(pb.Instrs)-1].(*ssa.If)
-				if !ok {
-					continue
-				}
-				bo, ok := iff.Cond.(*ssa.BinOp)
-				if !ok {
-					continue
-				}
-				var op token.Token
-				switch {
-				case root(bo.X) == ssa.Value(prm) && isLoadOfField(bo.Y, "SegmentBase", "numDocs"):
-					op = bo.Op
-				case root(bo.Y) == ssa.Value(prm) && isLoadOfField(bo.X, "SegmentBase", "numDocs"):
-					switch bo.Op {
-					case token.LSS:
-						op = token.GTR
-					case token.LEQ:
-						op = token.GEQ
-					case token.GTR:
-						op = token.LSS
-					case token.GEQ:
-						op = token.LEQ
-					default:
-						op = bo.Op
-					}
-				default:
-					continue
-				}
-				var towardsTrue bool
-				switch {
-				case pb.Succs[0] == b && len(b.Preds) == 1:
-					towardsTrue = true
-				case pb.Succs[1] == b && len(b.Preds) == 1:
-					towardsTrue = false
-				default:
-					continue
-				}
-				// orderings of (num, numDocs): num<numDocs, ==, >
-				lt, _ := cmpInt(op, 0, 1)
-				eq, _ := cmpInt(op, 1, 1)
-				gt, _ := cmpInt(op, 2, 1)
-				rl, re, rg := lt == towardsTrue, eq == towardsTrue, gt == towardsTrue
-				desc = fmt.Sprintf("guard `num %s numDocs`: read when num<numDocs:%v num==numDocs:%v num>numDocs:%v", op, rl, re, rg)
-				if rl && !re && !rg {
-					okc = true
-				}
-				break
-			}
+			okc, desc, k := docnumGuarded(p, cs, prm, 0)
+			n += k
 			c.check(okc, "docnum-guard/"+funcShortName(fn), c.pos(cs), "in "+funcShortName(fn)+" the stored-offset table is indexed only for document numbers below Count (truth table {<: read, =: skip, >: skip})", desc, "call: "+describeInstr(p, cs))
 		}
 	}
@@ -738,6 +787,39 @@ func ruleR4() *Rule {
 				})
 				c.check(okc, "clone-is-private", c.fpos(clone), "cloneInto shares only immutable parts (field, chunkOffsets, dvDataLoc) with the shared reader and never writes it", strings.Join(w, "; "))
 			}
+			// the per-caller reader map: docVisitState.dvrs itself, or a parameter
+			// that receives it at every call site of a helper
+			var isDvrs func(v ssa.Value, depth int) bool
+			isDvrs = func(v ssa.Value, depth int) bool {
+				if isLoadOfField(v, "docVisitState", "dvrs") {
+					return true
+				}
+				prm, ok := root(v).(*ssa.Parameter)
+				if !ok || depth > 2 {
+					return false
+				}
+				fn := prm.Parent()
+				idx := -1
+				for i, q := range fn.Params {
+					if q == prm {
+						idx = i
+					}
+				}
+				sites := p.callersOf(fn)
+				if idx < 0 || len(sites) == 0 || fn.Parent() != nil || fn.Object() == nil || fn.Object().Exported() {
+					return false // callers outside the package cannot be enumerated
+				}
+				for _, cs := range sites {
+					if par := cs.Parent(); par.Synthetic != "" && len(p.callersOf(par)) == 0 {
+						continue // promoted-method wrapper nobody calls
+					}
+					args := cs.Common().Args
+					if cs.Common().IsInvoke() || idx >= len(args) || !isDvrs(args[idx], depth+1) {
+						return false
+					}
+				}
+				return true
+			}
 			// provenance of receivers at call sites of mutating methods
 			var okRecv func(v ssa.Value, depth int) bool
 			okRecv = func(v ssa.Value, depth int) bool {
@@ -752,10 +834,10 @@ func ruleR4() *Rule {
 					return x.Call.StaticCallee() == clone
 				case *ssa.Extract:
 					if lk, ok := x.Tuple.(*ssa.Lookup); ok {
-						return isLoadOfField(lk.X, "docVisitState", "dvrs")
+						return isDvrs(lk.X, 0)
 					}
 				case *ssa.Lookup:
-					return isLoadOfField(x.X, "docVisitState", "dvrs")
+					return isDvrs(x.X, 0)
 				case *ssa.Phi:
 					for _, e := range x.Edges {
 						if e == ssa.Value(x) {
@@ -795,7 +877,7 @@ func ruleR4() *Rule {
 			for _, fn := range p.ZapFuncs {
 				eachInstr(fn, func(_ *ssa.BasicBlock, in ssa.Instruction) {
 					mu, ok := in.(*ssa.MapUpdate)
-					if !ok || !isLoadOfField(mu.Map, "docVisitState", "dvrs") {
+					if !ok || !isDvrs(mu.Map, 0) {
 						return
 					}
 					nu++
